@@ -64,6 +64,9 @@ P = {
  "C14": ("runtime monitor: one exact extended real embedded into every type that can hold it, all 225 ordered type pairs compared against the exact order; hash equality across embeddings",
          "Runtime monitoring of NumOrd (num_partial_cmp, num_eq), AbsOrd and NumHash across UBig, IBig, six primitive integer types, f32/f64 (NaN, infinities, -0.0, subnormals), FBig in bases 2/10/3 with different modes, RBig and non-reduced Relaxed: equal values across types, perturbations by one unit / the last bit / the resolution of the f32 log2 estimate, huge exponents with tiny significands.",
          "Exact order from num-rational; NumHash reference = num-order's own primitive implementation (included among the embeddings).", "DESIGN.md §4 C14"),
+ "C16": ("runtime monitor: API-surface sweep at domain edges in worker processes with panic capture, a capped global allocator, a fuel hook on every series/Newton/Euclid loop (logical step budget, not wall clock) and an outer wall-clock watchdog whose firing is inconclusive; expected outcome (must panic / never panics / may) from a table of the documented preconditions",
+         "Runtime monitoring of ~300 public operations x edge operands (0, +-1, infinities, precision 0/1, huge shifts and exponents, empty / non-ASCII / arbitrary strings) of all crates: an undocumented panic, a missing documented panic, fuel exhaustion (non-termination in logical steps) or allocation beyond the cap is a violation; parsers are fed grammar mutations and raw byte strings and must return Err. The thorough tier repeats the sweep in the release profile (debug assertions off).",
+         "The list of documented preconditions is transcribed from the API docs; 'bounded time' is decided by loop-iteration fuel scaled with precision, the wall clock only guards the harness.", "DESIGN.md §4 C16"),
 }
 NOT_YET = "monitor not built yet in this round (design in DESIGN.md §4); no claim is made until its check exists and is silent on the unchanged tree"
 
